@@ -233,6 +233,19 @@ def ops : List (String × Op) := [
         pure (verdictOf ((if tags.length = n then [] else ["count"]) ++
                          (if okTags pre step.toNat tags then [] else ["tags"])))
       | _ => pure "fail refused"),
+  -- `headers <how> <m> {name n}…`: one export call over m collections (names may repeat, in any order; handed over as a
+  -- list, a tuple or a one-shot iterator): the file lists, in the order of the collections, one `>Features <name>` header
+  -- per collection, each followed by exactly that collection's genes
+  ("headers", do
+      let _how ← tok
+      let cs ← pList (do let nm ← tok; let n ← pNat; pure (nm, n))
+      pArrow
+      let ans ← pRest
+      match ans with
+      | "ok" :: toks =>
+        let want := cs.map (fun c => s!"{c.1}:{c.2}")
+        pure (verdictOf (if toks = want then [] else ["headers"]))
+      | _ => pure "fail refused"),
   ("coll", do
       let flavor ← tok
       let table ← pNat
